@@ -10,7 +10,7 @@ use crate::env::GBuf;
 use crate::mods::Be;
 use crate::ops;
 use poulpy_hal::api::*;
-use poulpy_hal::layouts::{Module, Scratch};
+use poulpy_hal::layouts::{DataView, Module, Scratch};
 use proptest::prelude::*;
 use pzv_be::with_backend;
 use pzv_common::driver::{Verdict, guarded};
@@ -88,7 +88,7 @@ fn arena_run<B: ops::HalBackend>(m: &Module<B>, c: &ArenaCase) -> Verdict {
         let size = 1 + (*arg as usize) % 3;
         // (bytes requested, closure result = (region ptr, region bytes, remainder))
         type R<'a, B> = (usize, usize, &'a mut Scratch<B>);
-        let (want, res): (usize, Result<R<B>, String>) = match kind % 9 {
+        let (want, res): (usize, Result<R<B>, String>) = match kind % 14 {
             0 => {
                 let l = (*arg as usize) % 300;
                 (l, guarded(move || {
@@ -136,6 +136,43 @@ fn arena_run<B: ops::HalBackend>(m: &Module<B>, c: &ArenaCase) -> Verdict {
                 (m.bytes_of_vec_znx_big(cols, size), guarded(move || {
                     let (t, r) = sc.take_vec_znx_big::<Module<B>, B>(m, cols, size);
                     (t.data.as_ptr() as usize, t.data.len(), r)
+                }))
+            }
+            9 => {
+                classes.push("take_svp_ppol");
+                (m.bytes_of_svp_ppol(cols), guarded(move || {
+                    let (t, r) = sc.take_svp_ppol::<Module<B>, B>(m, cols);
+                    (t.data.as_ptr() as usize, t.data.len(), r)
+                }))
+            }
+            10 => {
+                classes.push("take_vmp_pmat");
+                let (rows, ci, co) = (1 + (*arg as usize >> 2) % 2, cols, 1 + (*a2 as usize >> 2) % 2);
+                (m.bytes_of_vmp_pmat(rows, ci, co, size), guarded(move || {
+                    let (t, r) = sc.take_vmp_pmat::<Module<B>, B>(m, rows, ci, co, size);
+                    { let d: &[u8] = t.data().as_ref(); (d.as_ptr() as usize, d.len(), r) }
+                }))
+            }
+            11 => {
+                classes.push("take_mat_znx");
+                let (rows, ci, co) = (1 + (*arg as usize >> 2) % 2, cols, 1 + (*a2 as usize >> 2) % 2);
+                (poulpy_hal::layouts::MatZnx::<Vec<u8>>::bytes_of(n, rows, ci, co, size), guarded(move || {
+                    let (t, r) = sc.take_mat_znx(n, rows, ci, co, size);
+                    { let d: &[u8] = t.data().as_ref(); (d.as_ptr() as usize, d.len(), r) }
+                }))
+            }
+            12 => {
+                classes.push("take_cnv_pvec_left");
+                (m.bytes_of_cnv_pvec_left(cols, size), guarded(move || {
+                    let (t, r) = sc.take_cnv_pvec_left::<Module<B>, B>(m, cols, size);
+                    { let d: &[u8] = t.data().as_ref(); (d.as_ptr() as usize, d.len(), r) }
+                }))
+            }
+            13 => {
+                classes.push("take_cnv_pvec_right");
+                (m.bytes_of_cnv_pvec_right(cols, size), guarded(move || {
+                    let (t, r) = sc.take_cnv_pvec_right::<Module<B>, B>(m, cols, size);
+                    { let d: &[u8] = t.data().as_ref(); (d.as_ptr() as usize, d.len(), r) }
                 }))
             }
             7 => {
@@ -289,7 +326,7 @@ pub fn arena_strategy() -> BoxedStrategy<ArenaCase> {
         0u8..=5,
         prop_oneof![Just(0u8), 0u8..=130, Just(64u8), Just(63u8), Just(1u8)],
         prop_oneof![0u16..=512, 0u16..=4096, Just(64u16), Just(128u16)],
-        proptest::collection::vec((0u8..9, any::<u16>(), any::<u8>()), 1..10),
+        proptest::collection::vec((0u8..14, any::<u16>(), any::<u8>()), 1..10),
     )
         .prop_map(|(be, log_n, lead, len, steps)| ArenaCase { be, log_n, lead, len, steps })
         .boxed()
